@@ -1,9 +1,146 @@
-import Tahoe.Happiness.Placement
-/-! C07 — share placement (placeholder while proofs are built). -/
+import Tahoe.Happiness.LemmasPlacement2
+/-!
+C07 — share placement is complete, respects read-only servers, maximizes spread.
+
+Model: `Tahoe/Happiness/Placement.lean` (transcription of `share_placement` and all helpers of
+`immutable/happiness_upload.py` on top of the flow model of C08), with two switches:
+`Cfg.asIs` is the code in the repository, `Cfg.fixed` the code after `fixes/C07-indexedshares.diff`
+and `fixes/C07-dropped-peer.diff`.
+
+Full-strength statements (for at least one writable peer, writable and read-only peers disjoint,
+existing shares only on those peers and only for share numbers to be placed):
+* `placement_total`: `sharePlacement cfg W R S E = .ok res → ∀ s ∈ S, ∃ p, (s, p) ∈ res ∧ (p ∈ W ∨ p ∈ R)`
+* `readonly_only_existing`: `… → ∀ (s, p) ∈ res, p ∈ R → s ∈ dget E p`
+* `spread_maximal`: `… → number of distinct peers in res = max over all total placements that satisfy
+  the read-only clause` (= maximum matching number of the relation "writable peer × any share,
+  read-only peer × share it holds").
+On the model of the repository's code the second and third are FALSE (counterexamples below,
+reproduced on the real code by `harness/props/c07.py`).  Over `Cfg.fixed` the first two are proved
+at full strength for all inputs; of `spread_maximal` only the per-phase part is proved
+(`spread_maximal_partial`: every one of the three `_calculate_mappings` phases ends with a
+*maximum* matching of its flow network, via the C08 theory).  Missing for the full statement: the
+composition argument that read-only-first / existing-second / fresh-third plus the homeless
+distribution reaches the global optimum `min(|M_ro| + |W|, |S|)`; it is checked by the harness
+monitor exhaustively on small scopes and on seeded layouts.
+Helper lemmas: `Tahoe/Happiness/LemmasPlacement*.lean`, `LemmasInner.lean`.
+-/
 namespace Tahoe.C07
 open Tahoe.Happiness
 
+/-! ### The code as it is -/
+
+/-- DESIGN §3 probe, ids relabelled `w0,w1,r0,r1 ↦ 0,1,2,3` with the existing share on `r1`:
+the only share goes to read-only peer 2, which does not hold it (peer 3 does). -/
 theorem readonly_only_existing_counterexample :
-    sharePlacement Cfg.asIs [0] [2, 3] [0] [(3, [0])] = .ok [(0, 2)] := by decide
+    sharePlacement Cfg.asIs [0, 1] [2, 3] [0] [(3, [0])] = .ok [(0, 2)] ∧
+    ¬ (dget [(3, [0])] 2).contains 0 := by decide
+
+/-- cause of the above: in `_servermap_flow_graph` every peer's adjacency row is the same list
+object, so read-only peer 2 (vertex 1) is connected to share 0 (vertex 3) although only peer 3
+(vertex 2) holds it -/
+theorem shared_indexedShares_row :
+    servermapFlowGraph Cfg.asIs [2, 3] [0] [(3, [0])] = [[1, 2], [3], [3], [4], []] ∧
+    servermapFlowGraph Cfg.fixed [2, 3] [0] [(3, [0])] = [[1, 2], [], [3], [4], []] := by decide
+
+/-- second defect: writable peer 2 holds only share 0, which the read-only phase places on
+read-only peer 0; `share_placement` then drops peer 2 from the later phases: two distinct servers
+are used although `{0↦0, 1↦1, 2↦2}` uses three and satisfies the read-only clause. -/
+theorem spread_maximal_counterexample :
+    sharePlacement Cfg.asIs [1, 2] [0] [0, 1, 2] [(0, [0]), (1, [1, 2]), (2, [0])]
+      = .ok [(0, 0), (1, 1), (2, 1)] := by decide
+
+/-- resetting `indexedShares` per peer alone does not repair the second defect -/
+theorem spread_maximal_counterexample_after_first_fix :
+    sharePlacement ⟨true, false⟩ [1, 2] [0] [0, 1, 2] [(0, [0]), (1, [1, 2]), (2, [0])]
+      = .ok [(0, 0), (1, 1), (2, 1)] := by decide
+
+/-! ### The repaired code -/
+
+/-- on the failing inputs above the repaired model returns placements satisfying all three clauses -/
+theorem fixed_on_counterexamples :
+    sharePlacement Cfg.fixed [0, 1] [2, 3] [0] [(3, [0])] = .ok [(0, 3)] ∧
+    sharePlacement Cfg.fixed [1, 2] [0] [0, 1, 2] [(0, [0]), (1, [1, 2]), (2, [0])]
+      = .ok [(0, 0), (1, 1), (2, 2)] := by decide
+
+/-- **placement_total**: with at least one writable peer, every share number gets a server, and
+that server is one of the given peers (existing shares are assumed to sit on given peers only). -/
+theorem placement_total (W R S : List Nat) (E : SetMap) (res : List (Nat × Nat)) (hW : W ≠ [])
+    (hdom : ∀ x ∈ E, x.1 ∈ W ∨ x.1 ∈ R) (h : sharePlacement Cfg.fixed W R S E = .ok res) :
+    ∀ s ∈ S, ∃ p, (s, p) ∈ res ∧ (p ∈ W ∨ p ∈ R) := by
+  obtain ⟨h1, h2⟩ := sharePlacement_fixed_spec W R S E res hW h
+  intro s hs
+  obtain ⟨e, he, rfl⟩ := List.mem_map.mp (h1 s hs)
+  refine ⟨e.2, he, ?_⟩
+  rcases h2 e he with h | ⟨h, _⟩ | ⟨_, h⟩
+  · left; exact h
+  · right; exact h
+  · obtain ⟨x, hx, hx'⟩ := List.mem_map.mp h
+    rw [← hx']; exact hdom x hx
+
+example : sharePlacement Cfg.fixed [0, 1] [2] [0, 1, 2, 3] [(2, [0, 1, 2, 3])]
+    = .ok [(0, 2), (1, 0), (2, 1), (3, 0)] := by decide
+
+/-- a result is always returned when some writable peer is not also listed read-only (the
+round-robin generator is never asked to cycle over an empty set) -/
+theorem placement_returns (W R S : List Nat) (E : SetMap) (w : Nat) (hw : w ∈ W) (hwr : w ∉ R) :
+    sharePlacement Cfg.fixed W R S E ≠ .hang := by
+  rw [sharePlacement_fixed_eq]
+  split
+  · simp
+  · unfold finalize
+    have hmem : w ∈ sdiff (mkSet W) (mkSet R) :=
+      (mem_sdiff _ _ _).mpr ⟨(mem_mkSet W w).mpr hw, fun h => hwr ((mem_mkSet R w).mp h)⟩
+    have hne : (sdiff (mkSet W) (mkSet R)).isEmpty = false := by
+      cases hs : sdiff (mkSet W) (mkSet R) with
+      | nil => rw [hs] at hmem; simp at hmem
+      | cons _ _ => rfl
+    simp [hne]
+
+/-- **readonly_only_existing**: a read-only peer is assigned share `s` only if it already holds
+`s` (writable and read-only peers disjoint). -/
+theorem readonly_only_existing (W R S : List Nat) (E : SetMap) (res : List (Nat × Nat)) (hW : W ≠ [])
+    (hdisj : ∀ x ∈ W, x ∉ R) (h : sharePlacement Cfg.fixed W R S E = .ok res) :
+    ∀ s p, (s, p) ∈ res → p ∈ R → ∃ x ∈ E, x.1 = p ∧ s ∈ x.2 := by
+  obtain ⟨_, h2⟩ := sharePlacement_fixed_spec W R S E res hW h
+  intro s p hsp hp
+  rcases h2 (s, p) hsp with h | ⟨_, h⟩ | ⟨h, _⟩
+  · exact absurd hp (hdisj p h)
+  · exact h
+  · exact absurd hp h
+
+example : ([0, 1] : List Nat) ≠ [] ∧ ∀ x ∈ ([0, 1] : List Nat), x ∉ ([2, 3] : List Nat) := by decide
+
+/-- **spread_maximal (partial)**: each `_calculate_mappings` phase of the repaired code ends with
+a maximum matching `M` of its flow network (servers `1..|peers|`, share vertices after them): the
+value stored for a share is `None` iff the share is unmatched in `M`, and the matched server
+otherwise; no matching of the network's server/share edges is larger than `M`. -/
+theorem spread_maximal_partial (peers shares : List Nat) (sm : SetMap) (hp : peers.Nodup)
+    (hs : shares.Nodup) (hrows : ∀ p, (dget sm p).Nodup) :
+    ∃ M : List (Nat × Nat), Matching M ∧
+      (∀ e ∈ M, 1 ≤ e.1 ∧ e.1 ≤ peers.length ∧ e.2 ∈ adj (cmGraph peers shares sm) e.1) ∧
+      (∀ M' : List (Nat × Nat), Matching M' →
+        (∀ e ∈ M', 1 ≤ e.1 ∧ e.1 ≤ peers.length ∧ e.2 ∈ adj (cmGraph peers shares sm) e.1) →
+        M'.length ≤ M.length) ∧
+      ∀ si, peers.length + 1 ≤ si → si ≤ peers.length + shares.length →
+        (cmgValue (cmGraph peers shares sm) si = none ∧ si ∉ M.map (·.2)) ∨
+        (∃ i, cmgValue (cmGraph peers shares sm) si = some i ∧ (i, si) ∈ M) :=
+  cmgValue_spec (cmGraph_layered peers shares sm hp hs hrows)
+
+example : ([3, 5] : List Nat).Nodup ∧ ([0, 1] : List Nat).Nodup ∧
+    ∀ p, (dget [(3, [0, 1]), (5, [1])] p).Nodup := by
+  refine ⟨by decide, by decide, ?_⟩
+  intro p
+  apply dget_nodup
+  intro e he
+  simp only [List.mem_cons, List.not_mem_nil, or_false] at he
+  rcases he with rfl | rfl <;> decide
+
+/-- the phase result in closed form: one entry per share, in the order of the share set -/
+theorem calculate_mappings_closed_form (peers shares : List Nat) (sm : SetMap) (hp : peers.Nodup)
+    (hs : shares.Nodup) :
+    calculateMappings Cfg.fixed peers shares sm =
+      shares.map (fun s => (s, (cmgValue (cmGraph peers shares sm)
+        (toIndex (reindexItems shares (peers.length + 1)) s)).map (ofIndex (reindexItems peers 1)))) :=
+  calculateMappings_eq peers shares sm hp hs
 
 end Tahoe.C07
